@@ -4,7 +4,7 @@ Deterministic for (seed, FakeClock); used by C07/C08/C15 to produce histories wi
 undo records pointing across pack times, un-created objects, cycles and garbage."""
 import transaction
 
-from ZODB.POSException import POSKeyError, UndoError
+from ZODB.POSException import ConflictError, POSKeyError, UndoError
 
 from zv.objs import Cell
 
@@ -28,6 +28,9 @@ def reachable_nodes(c):
 
 
 OPS = ['new', 'new', 'new', 'mod', 'mod', 'unlink', 'link', 'undo', 'undo', 'undo', 'cycle', 'garbage']
+# with writes to objects that are unreachable (never linked, or unlinked earlier) and stay so: the live connection
+# still holds them, so an unreachable oid gets records on both sides of a pack time
+OPS_G = OPS + ['garbage', 'unlink', 'modgarbage', 'modgarbage', 'modgarbage']
 
 
 def build(db, rnd, nops, ops=OPS, can_undo=True, trace=None):
@@ -36,10 +39,13 @@ def build(db, rnd, nops, ops=OPS, can_undo=True, trace=None):
     c = db.open(tm)
     trace = [] if trace is None else trace
     k = [0]
+    known = []
 
     def fresh():
         k[0] += 1
-        return Cell('n%d' % k[0])
+        n = Cell('n%d' % k[0])
+        known.append(n)
+        return n
 
     def attach(parent, name, child):
         if parent is c.root():
@@ -94,6 +100,22 @@ def build(db, rnd, nops, ops=OPS, can_undo=True, trace=None):
             g = fresh()
             g.refs['child'] = fresh()
             c.add(g)
+        elif op == 'modgarbage':
+            reach = {n._p_oid for n in nodes}
+            cand = [n for n in known if n._p_oid is not None and n._p_jar is c and n._p_oid not in reach]
+            if not cand:
+                tm.abort()
+                continue
+            n = rnd.choice(cand)
+            try:
+                n.payload = (n.payload or '') + 'g'
+                tm.get().note('%s%d' % (op, i))
+                tm.commit()
+                trace.append(op)
+            except (POSKeyError, ConflictError):
+                tm.abort()                      # the object was un-created by an undo
+                trace.append('modgarbage-refused')
+            continue
         elif op == 'undo':
             if not can_undo:
                 tm.abort()
